@@ -2,6 +2,7 @@
 the glue program, the Go tool chain builds it, and the binary answers JSON commands (calls through
 the generated client into the generated server, raw requests) with JSON observations."""
 import json
+import re
 import os
 import random
 import shutil
@@ -324,3 +325,15 @@ def build_many(seed, indices, flags_fn, work, race=False, workers=12, tags=None,
 
 def rng_for(seed, *keys):
     return random.Random("%s/%s" % (seed, "/".join(map(str, keys))))
+
+
+def parse_prim(prim, text):
+    """the value a generated decoder makes of a string for an integer or boolean attribute (None: refused) — strconv's grammar, no spaces"""
+    if prim == "Boolean":
+        return {"1": True, "t": True, "T": True, "TRUE": True, "true": True, "True": True,
+                "0": False, "f": False, "F": False, "FALSE": False, "false": False, "False": False}.get(text)
+    if not re.match(r"^[+-]?[0-9]+$", text or ""):
+        return None
+    n = int(text)
+    lo, hi = INT_RANGES[prim]
+    return n if lo <= n <= hi else None
